@@ -18,15 +18,15 @@ theorem C09_match_derives (m : MacroDef) (inp : List Token) (a : Accum)
       cs.roots = m.rule.map ruleSym ∧
       a.split.flatten = inp.take a.total.length ∧
       a.total.length ≤ inp.length ∧
-      a.split.map (fun ts => ts.map (·.kind)) = cs.toList.map Tree.yield := by
-  sorry
+      a.split.map (fun ts => ts.map (·.kind)) = cs.toList.map Tree.yield :=
+  DetectorProofs.match_derives m inp a h
 
 /-- literal identifiers, integers and operator characters of the pattern are additionally
     compared by text -/
 theorem C09_text_constraints (m : MacroDef) (split : List (List Token)) (h : checkConstraint m split = true)
     (ci : Nat) (hci : ci ∈ m.cc) :
-    ∃ req f, m.rule[ci]? = some req ∧ split[ci]? = some [f] ∧ f.text = req.text := by
-  sorry
+    ∃ req f, m.rule[ci]? = some req ∧ split[ci]? = some [f] ∧ f.text = req.text :=
+  DetectorProofs.text_constraints m split h ci hci
 
 /-- completeness: if the pattern is accepted (no conflict) and some prefix of the stream, followed
     by at least one more token, derives from the pattern, the detector finds it — with exactly
@@ -40,7 +40,7 @@ theorem C09_match_complete (m : MacroDef)
     (hy : (inp.take n).map (·.kind) = cs.yield)
     (hk : ∀ t ∈ inp, t.kind ≤ Tok.WITH) :
     ∃ a, detectAt (mkDetector m) inp = some a ∧ a.total.length = n ∧
-      a.split.map (fun ts => ts.map (·.kind)) = cs.toList.map Tree.yield := by
-  sorry
+      a.split.map (fun ts => ts.map (·.kind)) = cs.toList.map Tree.yield :=
+  DetectorProofs.match_complete m hf hc k cs hv inp n hn hy hk
 
 end Theo
